@@ -71,6 +71,9 @@ def run_C02(ctx):
 
 
 def run_C08(ctx):
+    # a unary Request sent twice with the message once above and once below the compression threshold
+    from . import p_scalars
+    p_scalars.scalars(ctx, {"enc_reuse"}, [])
     return run_wire(ctx, ["C08"], 8000, 41040, 200)
 
 
